@@ -24,15 +24,18 @@ Muts == << <<Let("A", Bin("+", V("A"), I(1))), Do(Mem(V("T"), "concat", <<V("A")
            <<Let("B", Bin("/", I(1), I(0)))>>,
            <<Forall("E", V("T"), "auto", <<Let("E", Bin("+", V("E"), I(10)))>>), PrintS(<<Mem(V("T"), "at", <<I(0)>>)>>)>> >>
 \* actions: <<"run", ctx, m>> | <<"purge", 0>> | <<"free", ctx>>
+\* "run2": a program compiled by the original (after the clones were taken) and run by a clone; only programs that use
+\* names the clones already have (else the symbol tables do not line up)
 Acts == {[a |-> "run", c |-> c, m |-> m] : c \in {0, 1, 2}, m \in DOMAIN Muts} \cup {[a |-> "purge", c |-> 0, m |-> 0], [a |-> "free", c |-> 0, m |-> 0], [a |-> "free", c |-> 1, m |-> 0]}
+        \cup {[a |-> "run2", c |-> c, m |-> m] : c \in {1, 2}, m \in {1, 2}}
 RECURSIVE Seqs(_)
 Seqs(n) == IF n = 0 THEN {<<>>} ELSE {<<>>} \cup {Append(h, x) : h \in Seqs(n - 1), x \in Acts}
 \* only sequences that do not use a freed context
 RECURSIVE Valid(_, _)
 Valid(h, live) == IF h = <<>> THEN TRUE
                   ELSE LET x == Head(h) IN
-                       IF x.c \notin live THEN FALSE
-                       ELSE IF x.a = "purge" /\ (\E j \in DOMAIN Tail(h) : Tail(h)[j].c = 0 /\ Tail(h)[j].a # "free") THEN FALSE    \* a purged context is only freed afterwards
+                       IF x.c \notin live \/ (x.a = "run2" /\ 0 \notin live) THEN FALSE
+                       ELSE IF x.a = "purge" /\ (\E j \in DOMAIN Tail(h) : (Tail(h)[j].c = 0 /\ Tail(h)[j].a # "free") \/ Tail(h)[j].a = "run2") THEN FALSE    \* a purged context is only freed afterwards
                        ELSE Valid(Tail(h), IF x.a = "free" THEN live \ {x.c} ELSE live)
 RECURSIVE Render_(_, _)
 Render_(h, live) ==
@@ -40,6 +43,7 @@ Render_(h, live) ==
   ELSE LET x == Head(h)
            live2 == IF x.a = "free" THEN live \ {x.c} ELSE live
            act == IF x.a = "run" THEN <<[op |-> "exec", ctx |-> x.c, ast |-> Muts[x.m], text |-> Render(Muts[x.m])]>>
+                  ELSE IF x.a = "run2" THEN <<[op |-> "exec", ctx |-> 0, runin |-> x.c, ast |-> Muts[x.m], text |-> Render(Muts[x.m])]>>
                   ELSE IF x.a = "purge" THEN <<[op |-> "purge", ctx |-> x.c]>> ELSE <<[op |-> "free", ctx |-> x.c]>>
            dumps == SetToSeq({[op |-> "dump", ctx |-> c] : c \in live2})
        IN  act \o dumps \o Render_(Tail(h), live2)
